@@ -49,6 +49,18 @@ CHECKS = {
              'moments of (pulled - delivered) and (started - delivered) is compared with buffer_size+2 and '
              'buffer_size. Probes show that both bounds are reached exactly, so the buffers are driven full.',
         note='Schedules sampled; simple 1:1 pipelines so that pulls, starts and deliveries count the same unit.'),
+    'C08': dict(
+        level='exploration', ref='4 (C08)',
+        technique='deterministic simulation: provenance-tagged examples and instrumented functions at every '
+                  'stage; stop points and index accesses as the history; thread simulator for prefetch variants; '
+                  'look-ahead invariant checked at every event of the log',
+        text='Generated lazy pipelines over sources longer than their total look-ahead are constructed, iterated '
+             'to sampled stop points and indexed at every position; the event log must show no call at '
+             'construction, at every moment at most the stated look-ahead of evaluated-but-unaccounted examples, '
+             'no double evaluation per iteration, source order at the first stage, and for ds[i] exactly the '
+             'provenance of the result. Prefetch variants run under the seeded thread scheduler.',
+        note='Look-ahead allowance is a conservative sum; two simultaneous iterators are not attributed; '
+             'schedules sampled.'),
     'C12': dict(
         level='exploration', ref='4 (C12)',
         technique='deterministic simulation: seeded / exhaustive interleaving of the next() calls of 1-3 '
